@@ -233,14 +233,14 @@ def run_case(case):
         c = got_c.get(a)
         if c is None or np.isnan(c[0]) or np.isnan(c[1]):
             if r["present"] > 0:  # a day without any present reading may have no counts at all (see ASSUMPTIONS)
-                flag("counts_missing", None, desc + f"; the coverage frame has no counts for this day ({c})")
+                flag("counts_missing", edge, desc + f"; the coverage frame has no counts for this day ({c})")
                 tag += "c?"
         else:
             if c[0] != r["present"]:
-                flag("count_present", None, desc + f"; temperature_not_null = {float(c[0])!r}")
+                flag("count_present", edge, desc + f"; temperature_not_null = {float(c[0])!r}")
                 tag += "p!"
             if c[1] != r["absent"]:
-                flag("count_absent", None, desc + f"; temperature_null = {float(c[1])!r}")
+                flag("count_absent", edge, desc + f"; temperature_null = {float(c[1])!r}")
                 tag += "a!"
         beh.append(tag)
     viol = []
